@@ -84,6 +84,8 @@ func (p *Prog) LoadTemplates(glob string, funcMapFn *Fn) (*TemplateSet, error) {
 					ts.Funcs[name] = sig
 					if lit, ok := kv.Value.(*ast.FuncLit); ok {
 						ts.FuncLits[name] = lit
+					} else if lit := p.funcValueAsLit(funcMapFn, kv.Value); lit != nil {
+						ts.FuncLits[name] = lit
 					}
 				}
 			}
@@ -894,4 +896,39 @@ func (ts *TemplateSet) ArgIsGo(name, typeName string) bool {
 		}
 	}
 	return true
+}
+
+// funcValueAsLit: a function of the analysed package named where a literal could stand - `f`, or a method expression
+// `(*T).m` / `T.m` - read as the literal with the same parameters (the receiver first) and the same body.
+func (p *Prog) funcValueAsLit(in *Fn, e ast.Expr) *ast.FuncLit {
+	var obj types.Object
+	switch v := ast.Unparen(e).(type) {
+	case *ast.Ident:
+		obj = in.Info().Uses[v]
+	case *ast.SelectorExpr:
+		if sel := in.Info().Selections[v]; sel != nil && sel.Kind() == types.MethodExpr {
+			obj = sel.Obj()
+		} else {
+			obj = in.Info().Uses[v.Sel]
+		}
+	}
+	fo, isFn := obj.(*types.Func)
+	if !isFn {
+		return nil
+	}
+	df := p.FnOf(fo)
+	if df == nil || df.Decl == nil || df.Body == nil || df.Pkg != in.Pkg {
+		return nil
+	}
+	ft := &ast.FuncType{Func: df.Decl.Type.Func, Params: &ast.FieldList{}, Results: df.Decl.Type.Results}
+	if df.Decl.Recv != nil {
+		if _, isME := ast.Unparen(e).(*ast.SelectorExpr); !isME || in.Info().Selections[ast.Unparen(e).(*ast.SelectorExpr)] == nil {
+			return nil
+		}
+		ft.Params.List = append(ft.Params.List, df.Decl.Recv.List...)
+	}
+	if df.Decl.Type.Params != nil {
+		ft.Params.List = append(ft.Params.List, df.Decl.Type.Params.List...)
+	}
+	return &ast.FuncLit{Type: ft, Body: df.Body}
 }
